@@ -104,7 +104,18 @@ func engDec(a []string) string {
 		if err != nil {
 			return "err"
 		}
-		return msgToken(m)
+		tok := msgToken(m)
+		// the consumer owns the message it was given: it may reorder / overwrite the element lists of the delivered
+		// records (say, to render the fields sorted) - what the collector keeps for decoding must not live in them
+		if set := m.GetSet(); set != nil {
+			for _, r := range set.GetRecords() {
+				els := r.GetOrderedElementList()
+				for i, j := 0, len(els)-1; i < j; i, j = i+1, j-1 {
+					els[i], els[j] = els[j], els[i]
+				}
+			}
+		}
+		return tok
 	case "keys":
 		if decCP == nil {
 			return "bad-op"
